@@ -25,6 +25,10 @@ type c09Case struct {
 	// replay of one pure pair / pipeline
 	Subject []string `json:"subject,omitempty"`
 	Pos     int      `json:"pos,omitempty"`
+	// pipe: Settled = the directory was first generated under a profile of the same name without subject rules,
+	// then the profile file is replaced by the one under test and the run uses strategy Strat (0 = default flags)
+	Settled bool `json:"settled,omitempty"`
+	Strat   int  `json:"strat,omitempty"`
 }
 
 var c09Alphabet = []string{"CN", "O", "C", "1.2.3.4"}
@@ -83,6 +87,11 @@ func c09Enumerate(tier string, yield func(any)) {
 				c.Kind, c.HasList, c.Subject, c.Pos = "pipe", true, s, pos
 				cc := c
 				yield(&cc)
+				for _, st := range []int{0, 1, 15, 16} {
+					c2 := c
+					c2.Settled, c2.Strat = true, st
+					yield(&c2)
+				}
 			}
 		}
 	}
@@ -224,12 +233,30 @@ func c09Pipe(x *engine.Ctx, c *c09Case) {
 		d.Certs = append(d.Certs, cfg)
 	}
 	w := simfs.New(simfs.TickPerWrite)
-	d.Render(w)
+	strat := drive.Default
+	if c.Settled {
+		// the same hierarchy was generated earlier under a profile "p" without subject rules
+		open := &refcfg.ProfileCfg{Path: "prof.yaml", Name: "p"}
+		d.Profiles = []*refcfg.ProfileCfg{open}
+		d.Render(w)
+		if r0 := drive.Run(w, drive.Default, nil); !r0.OK() {
+			x.Violation("C09/pipeline/open-profile-run-failed", fmt.Sprintf("%v %s", r0.Err(), r0.Panic))
+			return
+		}
+		x.Transition(1)
+		d.Profiles = []*refcfg.ProfileCfg{prof}
+		w.Put(prof.Path, prof.YAML())
+		if c.Strat != 0 {
+			strat = dbStrat(c.Strat)
+		}
+	} else {
+		d.Render(w)
+	}
 	before := w.Clone()
-	res := drive.Run(w, drive.Default, nil)
+	res := drive.Run(w, strat, nil)
 	want, _, reason := c09Model(c, c.Subject)
 	x.Transition(1)
-	x.Nontrivial(fmt.Sprintf("pipe %v %v %v %v %d", c.Attrs, c.Optional, c.AllowOther, c.Subject, c.Pos))
+	x.Nontrivial(fmt.Sprintf("pipe %v %v %v %v %d %v %d", c.Attrs, c.Optional, c.AllowOther, c.Subject, c.Pos, c.Settled, c.Strat))
 	if res.Panic != "" {
 		x.Violation("C09/panic/"+res.PanicSite, res.Panic)
 		return
@@ -258,7 +285,7 @@ func init() {
 	register(&engine.Check{
 		ID:          "C09",
 		Level:       "model_checking",
-		Rule:        "every profile = (attribute list of length 0..4 over {CN,O,C,1.2.3.4} x optional flag) x allowOther, plus the absent list (9363 profiles) x every subject of length 1..5 over {CN,O,C,1.2.3.4,L} (3905): config.Validate on the real parsed RDN sequence vs. the reference predicate transcribed from the statement, one profile object shared by all its subjects as in a run and compared with its definition after every verdict; plus 7 profiles x 9 subjects x 3 positions of the constrained entity in a root->mid->leaf chain through the whole file pipeline (rejected => planning error, empty write log). Pairs are distinct by construction; states = profiles, transitions = Validate calls / runs",
+		Rule:        "every profile = (attribute list of length 0..4 over {CN,O,C,1.2.3.4} x optional flag) x allowOther, plus the absent list (9363 profiles) x every subject of length 1..5 over {CN,O,C,1.2.3.4,L} (3905): config.Validate on the real parsed RDN sequence vs. the reference predicate transcribed from the statement, one profile object shared by all its subjects as in a run and compared with its definition after every verdict; plus 7 profiles x 9 subjects x 3 positions of the constrained entity in a root->mid->leaf chain through the whole file pipeline (rejected => planning error, empty write log), on a fresh directory and on a directory first generated under a profile of the same name without subject rules and then run with default / -m only / all four reasons / -a. Pairs are distinct by construction; states = profiles, transitions = Validate calls / runs",
 		Bound:       map[string]string{"profile length": "<=4", "subject length": "<=5", "alphabet": "3 short names + 1 custom OID + 1 foreign attribute"},
 		Assumptions: []string{"profile attributes that the schema allows but no table resolves (PC, DC, T, UID, MAIL) are outside the statement"},
 		Budget:      budgets(quickBudget, thoroughBudget),
